@@ -11,7 +11,7 @@ CLAIM = {
          'Verus contracts with loop invariants over a sequence-of-addresses view, on extracted real text'),
  'C08': ('Deductive proof (Verus, any store contents, any count) on the real text of the passthrough InodeStore and PassthroughFs::forget_one: insert/remove/get maintain the data, id and handle maps exactly (remove deletes exactly that inode, keeps the id -> number record when asked to, releases it otherwise); forget_one never touches the root, may only write current-minus-count saturating at zero into the reference count, removes the inode only in the branch where the successful compare-exchange wrote zero, changes nothing but that inode, and keeps the id -> number record whenever numbers are allocated by the server. The history-level accounting of references is NOT decided.',
          'Verus contracts, representation maps and a capability on compare_exchange, on extracted real text'),
- 'C12': ('Deductive proof (Verus, every major/minor/max_readahead/flags/flags2 and every option set the filesystem may return) on the real text of Server::init: the capability word offered to the filesystem is flags, widened by flags2 only when FUSE_INIT_EXT comes with its payload; a lower major is answered EPROTO and a higher one with the server major without initialising the filesystem; otherwise the kernel\'s view of the reply (flags2 counted only with the FUSE_INIT_EXT marker) equals capable & want, the reply has the length for the client\'s minor, max_write fits the transport buffer, and only the client\'s version may be stored. Also: Vfs::open/opendir answer ENOSYS exactly when no_open/no_opendir is in force.',
+ 'C12': ('Deductive proof (Verus, every major/minor/max_readahead/flags/flags2 and every option set the filesystem may return) on the real text of Server::init: the capability word offered to the filesystem is flags, widened by flags2 only when FUSE_INIT_EXT comes with its payload; a lower major is answered EPROTO and a higher one with the server major without initialising the filesystem; otherwise the kernel\'s view of the reply (flags2 counted only with the FUSE_INIT_EXT marker) equals capable & want, the reply has the length for the client\'s minor, max_write fits the transport buffer, and only the client\'s version may be stored. Also: Vfs::open/opendir answer ENOSYS exactly when no_open/no_opendir is in force; PassthroughFs::init may turn each of its five behaviour switches (writeback, no_open, no_opendir, killpriv_v2, perfile_dax) on only when the client offered the feature, and requests that feature from the server under exactly that condition.',
          'Verus contracts on extracted real text (Server::init), existential reply specification with explicit witnesses'),
  'C16': ('Deductive proof (Verus, names of any length, any max and cursor state) of the reply-assembly step only: add_dirent appends either nothing and returns Ok(0) - exactly when the whole entry does not fit in what is left of the requested size - or one whole 8-byte-aligned entry (entry_out for plus, dirent header with the caller\'s ino/off/type/namelen, name, zero padding) and returns its size, and never grows the reply beyond the requested size. The exactly-once property across chunks is NOT decided.',
          'Verus contract on extracted real text (add_dirent)'),
